@@ -1,4 +1,5 @@
 import PSO.Proofs.QueueFacts
+import PSO.Proofs.QueuePipe
 
 /-!
 # C19 — thread-safe calls: each applied once, sync returns its own result
@@ -205,5 +206,80 @@ example : ∃ s, Run 3 [[specSync]] (fun _ => 7) 41
 example : (kwKeys ([("sync", .bool true), ("x", .tup [.int 1, .int 2]), ("timeout", .int 3)] : Kw)).Nodup ∧
     ((kwGet "_doApply" ([("sync", .bool true), ("x", .tup [.int 1, .int 2]), ("timeout", .int 3)] : Kw)).getD
       (.bool false)).truthy = false := by decide
+
+
+/-! ## the wake-up pipe (`PipeNotifier`, repair D67)
+
+`WRun m cap ro ls w`: `w` is the state after the steps `ls` (callers' `put` / `notify`, the tick
+thread's `process k` = `_checkCommandsToApply` dequeuing up to `k` commands and `poll` = read the pipe
+when it is readable), in ANY order, from the empty queue (limit `m`) and the empty pipe of capacity
+`cap ≥ 1`; `ro = false` is the code as it is (the pipe is read until empty), `ro = true` the variant
+with a single `os.read(fd, 1024)` — the theorems hold for both. -/
+
+def WRun (m cap : Nat) (ro : Bool) (ls : List WLabel) (w : Wake) : Prop := ((Wake.init m cap ro).run ls).1 = w
+
+/-- (a) no step fails — in particular `notify` never raises, however far the tick thread is behind;
+a `put` on a full queue is the only non-`ok` outcome (QUEUE_FULL, reported through the callback). -/
+theorem pipe_no_step_fails (m cap : Nat) (ro : Bool) (ls : List WLabel) :
+    ∀ o ∈ ((Wake.init m cap ro).run ls).2, o ≠ WOut.error := run_no_error _ ls
+
+theorem pipe_notify_never_fails (w : Wake) : (w.step .notify).2 = .ok := by
+  simp only [Wake.step, pipeNotify]; split <;> rfl
+
+/-- the unrepaired `notify` fails exactly when the pipe is full (witness D67) -/
+theorem pipe_notify_pinned_counterexample (cap : Nat) : (pipeNotifyPinned cap cap).2 = .error := by
+  simp [pipeNotifyPinned]
+
+/-- (b) the pipe never exceeds its capacity -/
+theorem pipe_le_cap {m cap ro ls w} (hc : 0 < cap) (h : WRun m cap ro ls w) : w.pipe ≤ w.cap := by
+  subst h; exact (winv_run (winv_init m cap ro hc) ls).pipeLe
+
+/-- (c) no lost wake-up: when commands were put since the pipe was last read, the pipe is readable
+(`poll` returns at once) — unless each of those puts is by a caller that has not yet reached its
+`notify` (it will make the pipe readable).  With `put` and `notify` taken as one action (`owing = 0`):
+a put since the last read ⇒ the pipe is readable. -/
+theorem pipe_no_lost_wakeup {m cap ro ls w} (hc : 0 < cap) (h : WRun m cap ro ls w)
+    (hf : w.owing < w.freshPuts) : 0 < w.pipe := by
+  subst h
+  have := (winv_run (winv_init m cap ro hc) ls).fresh
+  by_cases hp : ((Wake.init m cap ro).run ls).1.pipe = 0
+  · have := this hp; omega
+  · omega
+
+/-- (d) the tick thread goes to sleep in `poll` (pipe empty, nobody owes a `notify`) only when the queue
+holds nothing but what `_checkCommandsToApply` itself decided to leave (time budget, waiting for a
+leader): no command put by a caller is stranded. -/
+theorem pipe_sleep_only_when_processed {m cap ro ls w} (hc : 0 < cap) (h : WRun m cap ro ls w)
+    (hs : w.sleeps = true) : w.queue.items.length ≤ w.leftover := by
+  subst h
+  have hi := winv_run (winv_init m cap ro hc) ls
+  simp only [Wake.sleeps, Bool.and_eq_true, beq_iff_eq] at hs
+  obtain ⟨⟨h1, h2⟩, h3⟩ := hs
+  have a := hi.fresh h2
+  have b := hi.procFresh h1
+  have c := hi.queueLe h1
+  omega
+
+/-- (d') reading the pipe and then processing the whole queue, with no further put, leaves it empty -/
+theorem pipe_drain_process_empties (w : Wake) (k : Nat) (hk : w.queue.items.length ≤ k) :
+    (((w.step .poll).1.step (.process k)).1).queue.items = [] := by
+  have hq : (w.step .poll).1.queue = w.queue := by
+    simp only [Wake.step]; split <;> rfl
+  show ((w.step .poll).1.queue.items.drop k) = []
+  rw [hq]
+  exact List.drop_eq_nil_of_le hk
+
+/-- non-vacuity: 3 × cap notifies against a pipe of capacity 2 while the tick thread is busy, then a
+poll and a complete processing: nothing fails, the pipe saturates at 2, the tick thread may sleep and
+the queue is empty. -/
+example : ((Wake.init 10 2 false).run
+      [.put 1, .notify, .put 2, .notify, .put 3, .notify, .put 4, .notify, .put 5, .notify, .put 6, .notify]).2
+      = [.ok, .ok, .ok, .ok, .ok, .ok, .ok, .ok, .ok, .ok, .ok, .ok] ∧
+    ((Wake.init 10 2 false).run
+      [.put 1, .notify, .put 2, .notify, .put 3, .notify, .put 4, .notify, .put 5, .notify, .put 6, .notify]).1.pipe = 2 ∧
+    ((Wake.init 10 2 false).run
+      [.put 1, .notify, .put 2, .notify, .put 3, .notify, .poll, .process 9]).1.sleeps = true ∧
+    ((Wake.init 10 2 false).run
+      [.put 1, .notify, .put 2, .notify, .put 3, .notify, .poll, .process 9]).1.queue.items = [] := by decide
 
 end PSO.C19
